@@ -182,6 +182,135 @@ VERUS = [dict(
         dict(name="exhausted_page_not_checked", item="lookup_and_get_indices", find="if remaining_output == 0 {", replace="if remaining_output == usize::MAX {"),
     ],
 )]
+FU = "datafusion/physical-plan/src/joins/utils.rs"
+_DBG = r"debug_assert(?:_eq)?!\((?:[^()]|\((?:[^()]|\((?:[^()]|\([^()]*\))*\))*\))*\);"
+def _idx_edits(name):
+    return [
+        dict(rule="R3", find="fn %s<T: ArrowPrimitiveType>(" % name, replace="fn %s(" % name),
+        dict(rule="R3", find="input_indices: &PrimitiveArray<T>,", replace="input_indices: &IdxArr,"),
+        dict(rule="R3", find=") -> PrimitiveArray<T>", replace=") -> IdxArr"),
+        dict(rule="R3", regex=r"where\s+NativeAdapter<T>: From<<T as ArrowPrimitiveType>::Native>,\s*", replace="", count=1),
+        # debug assertions state the preconditions (no nulls, ascending): they are the `requires` of the contract
+        dict(rule="R9", regex=_DBG, replace="", count=2),
+        dict(rule="R3", regex=r"Vec<T::Native>", replace="Vec<u32>", count="any"),
+        dict(rule="R3", regex=r"let mut output = Vec::with_capacity\(", replace="let mut output: Vec<u32> = Vec::with_capacity(", count="any"),
+        dict(rule="R13", regex=r"range\.len\(\)", replace="range_len(&range)", count="any"),
+        dict(rule="R1", find="for &v in input_indices.values() {",
+             replace="let vals_ = input_indices.values();\n    let mut k_: usize = 0;\n    while k_ < vals_.len() {\n        let v = vals_[k_]; k_ = k_ + 1;"),
+        dict(rule="R3", find="v.as_usize()", replace="(v as usize)"),
+        dict(rule="R13", regex=r"output\.extend\(\(([\w.]+)\.\.([\w.]+)\)\.map\(\|idx\| \{\s*T::Native::from_usize\(idx\)\.expect\(\"[^\"]*\"\)\s*\}\)\);",
+             replace=r"extend_with_range(&mut output, \1, \2);", count="any"),
+        dict(rule="R13", regex=r"prev_idx\.replace\(idx\)", replace="opt_replace(&mut prev_idx, idx)", count="any"),
+        dict(rule="R13", find="PrimitiveArray::<T>::new(output.into(), None)", replace="IdxArr::from_vec(output)"),
+    ]
+VERUS.append(dict(
+    name="join_index_kernels",
+    uses="use vstd::prelude::*;\nuse std::ops::Range;\n",
+    prelude="prelude_idx.rs", proofs="proofs_idx.rs", witness="witness_idx.rs", rlimit=120, min_verified=4, twins=[],
+    std_specs=False,
+    items=[
+        dict(file=FU, path=["fn get_anti_indices"], ret="r", loop_count=1, edits=_idx_edits("get_anti_indices"),
+             contract="""    requires sorted(input_indices.view()), range.start <= range.end, range.end <= u32::MAX,
+    ensures
+        // the rows of the range that were NOT matched: ascending, each once, nothing else
+        anti_lists(r.view(), input_indices.view(), range.start as int, range.end as int),""",
+             loops={0: """
+        invariant_except_break
+            forall|j: int| 0 <= j < k_ ==> ((#[trigger] vals_@[j]) as int) < next_unmatched_idx,
+        invariant
+            vals_@ == input_indices.view(), sorted(vals_@), k_ <= vals_@.len(),
+            range.start <= next_unmatched_idx <= range.end, range.end <= u32::MAX,
+            anti_lists(output@, vals_@, range.start as int, next_unmatched_idx as int),
+            forall|j: int| k_ <= j < vals_@.len() ==> ((#[trigger] vals_@[j]) as int) < range.start || next_unmatched_idx <= vals_@[j] + 1,
+        ensures
+            range.start <= next_unmatched_idx <= range.end,
+            anti_lists(output@, vals_@, range.start as int, next_unmatched_idx as int),
+            forall|x: int| next_unmatched_idx <= x < range.end ==> !occurs(vals_@, x),
+        decreases vals_@.len() - k_
+"""},
+             proofs=[
+                 dict(at="before_loop:0", text="""
+    proof { assert(anti_lists(output@, vals_@, range.start as int, range.start as int)); }"""),
+                 dict(at="loop_body_start:0", text="""
+        let ghost k0 = k_ as int; let ghost nu0 = next_unmatched_idx as int; let ghost out0 = output@;"""),
+                 dict(at="after_loop:0", text="""
+    let ghost out1 = output@;"""),
+                 dict(at="before:IdxArr::from_vec(output)", text="""
+    proof {
+        if next_unmatched_idx < range.end {
+            lemma_anti_extend(out1, vals_@, range.start as int, next_unmatched_idx as int, range.end as int);
+            assert(output@ =~= out1 + run(next_unmatched_idx as int, range.end as int));
+        }
+    }
+    """),
+                 dict(at="loop_body_end:0", text="""
+        proof {
+            let vv = vals_@; let idx = vv[k0] as int;
+            // rows nu0 .. idx were not matched: earlier indices are below nu0, later ones at least idx
+            assert forall|x: int| nu0 <= x < idx implies !occurs(vv, x) by {
+                if occurs(vv, x) { let j = choose|j: int| 0 <= j < vv.len() && #[trigger] vv[j] as int == x; if j < k0 { } else { assert(vv[k0] <= vv[j]); } }
+            }
+            if nu0 < idx { lemma_anti_extend(out0, vv, range.start as int, nu0, idx); assert(output@ =~= out0 + run(nu0, idx)); }
+            let mid = if nu0 < idx { idx } else { nu0 };
+            assert forall|x: int| mid <= x < idx + 1 implies occurs(vv, x) by { assert(vv[k0] as int == idx); }
+            lemma_anti_skip(output@, vv, range.start as int, mid, idx + 1);
+        }"""),
+             ]),
+        dict(file=FU, path=["fn get_semi_indices"], ret="r", loop_count=1, edits=_idx_edits("get_semi_indices"),
+             contract="""    requires sorted(input_indices.view()), range.start <= range.end,
+    ensures
+        // the rows of the range that WERE matched: in order, duplicates removed, nothing else
+        semi_lists(r.view(), input_indices.view(), range.start as int, range.end as int),""",
+             loops={0: """
+        invariant_except_break
+            forall|j: int| 0 <= j < k_ ==> ((#[trigger] vals_@[j]) as int) < range.end,
+            prev_idx is None ==> output@.len() == 0 && forall|j: int| 0 <= j < k_ ==> ((#[trigger] vals_@[j]) as int) < range.start,
+            prev_idx matches Some(p) ==> output@.len() > 0 && output@.last() as int == p && occurs_before(vals_@, k_ as int, p as int)
+                && forall|j: int| 0 <= j < k_ ==> ((#[trigger] vals_@[j]) as int) <= p,
+        invariant
+            vals_@ == input_indices.view(), sorted(vals_@), k_ <= vals_@.len(), range.start <= range.end,
+            semi_partial(output@, vals_@, range.start as int, range.end as int),
+            forall|j: int| 0 <= j < k_ && range.start <= ((#[trigger] vals_@[j]) as int) && (vals_@[j] as int) < range.end ==> occurs(output@, vals_@[j] as int),
+        ensures
+            semi_lists(output@, vals_@, range.start as int, range.end as int),
+        decreases vals_@.len() - k_
+"""},
+             proofs=[
+                 dict(at="loop_body_start:0", text="""
+        let ghost k0 = k_ as int; let ghost out0 = output@;"""),
+                 dict(at="loop_body_end:0", text="""
+        proof {
+            let vv = vals_@; let idx = vv[k0] as int;
+            lemma_semi_step(out0, output@, vv, k0, range.start as int, range.end as int);
+            if range.start <= idx && idx < range.end {
+                assert(occurs(vv, idx)) by { assert(vv[k0] as int == idx); }
+                if output@.len() != out0.len() {
+                    assert(output@ == out0.push(vv[k0]));
+                    if out0.len() > 0 {
+                        let p = out0.last() as int;
+                        let jp = choose|j: int| 0 <= j < k0 && j < vv.len() && #[trigger] vv[j] as int == p;
+                        assert(vv[jp] <= vv[k0]);
+                        assert(p < idx);
+                    }
+                    assert forall|i: int, j: int| 0 <= i < j < output@.len() implies output@[i] < output@[j] by {
+                        if j < out0.len() { } else { assert(out0[i] <= out0.last()); }
+                    }
+                }
+                assert(occurs(output@, idx)) by { assert(output@[output@.len() - 1] as int == idx); }
+            }
+        }"""),
+             ]),
+    ],
+    mutants=[
+        dict(name="anti_matched_row_not_skipped", item="get_anti_indices", find="next_unmatched_idx = idx + 1;", replace="next_unmatched_idx = idx;"),
+        dict(name="anti_first_row_treated_as_outside", item="get_anti_indices", find="if idx < range.start {", replace="if idx <= range.start {"),
+        dict(name="anti_end_inclusive", item="get_anti_indices", find="if idx >= range.end {", replace="if idx > range.end {"),
+        dict(name="anti_tail_drops_last_row", item="get_anti_indices", find="if next_unmatched_idx < range.end {", replace="if next_unmatched_idx + 1 < range.end {"),
+        dict(name="semi_duplicates_kept", item="get_semi_indices", find="!= Some(idx)", replace="!= Some(idx + 1)"),
+        dict(name="semi_first_row_dropped", item="get_semi_indices", find="if idx < range.start {", replace="if idx <= range.start {"),
+        dict(name="semi_end_inclusive", item="get_semi_indices", find="if idx >= range.end {", replace="if idx > range.end {"),
+    ],
+))
 KANI = []
 TRUSTED = ["Verus 0.2026.09.13 + bundled Z3", "global size_of usize == 8",
            "ASSUMED view of an Arrow PrimitiveArray as Seq<Option<u64>> (len / null_count / is_null / value_unchecked+as_ / iter) in prelude.rs",
@@ -190,7 +319,9 @@ TRUSTED = ["Verus 0.2026.09.13 + bundled Z3", "global size_of usize == 8",
 ASSUMPTIONS = ["build side has fewer than u32::MAX rows (checked by try_create_array_map before ArrayMap::try_new)",
                "probe batch rows <= u32::MAX, 1 <= limit <= usize::MAX/2, incoming offset valid (produced by an earlier call or (0, None))",
                "AsPrimitive<u64> is injective on each supported integer type (sign extension), so equal u64 images mean equal keys"]
-NOT_COVERED = ["every other join operator and join type of C05 (hash join stream, outer/semi/anti/mark emission, sort-merge, nested loop, symmetric hash, cross, piecewise merge)",
+NOT_COVERED = ["every other join operator and join type of C05 (hash join stream, outer/mark emission around the index kernels, sort-merge, nested loop, symmetric hash, cross, piecewise merge)",
                "contain_keys (Arrow BooleanBuffer::collect_bool closure), the downcast_supported_integer! dispatch, estimate_memory_size, try_create_array_map's admission logic",
                "num_of_distinct_key (only shown not to overflow)"]
+TRUSTED += ["ASSUMED view of a null-free UInt32 index array (values / new) in prelude_idx.rs; get_anti_indices / get_semi_indices monomorphised to u32 (R3), debug assertions turned into the preconditions they state (R9)"]
+ASSUMPTIONS += ["get_anti_indices / get_semi_indices: input indices ascending and without nulls (the functions' debug assertions), range.end <= u32::MAX (the `expect` in the code)"]
 EXPLANATION = "ArrayMap::try_new/fill_data proved to build, for EVERY key, a chain that lists exactly the build rows with that key in ascending order; lookup_and_get_indices proved to return, page by page, exactly the join of the probe column with the build column (NULL probes match nothing), for both representations (no duplicates / chained) and every resume offset."
